@@ -34,7 +34,7 @@ func (c *verifCache) Delete(filecache.Key) error        { c.deleted++; return ni
 const verifOurVersion = "1.2.3"
 
 // VerifC13_Deserialize: an entry produced by the real serializeCompiledModule for an arbitrary compiled module (0..2
-// function offsets, 0..3 code bytes, optional source map, all values symbolic), written by a wazero of an arbitrary
+// function offsets, 0..3 concrete code bytes, optional source map, offsets symbolic), written by a wazero of an arbitrary
 // version string (0..12 symbolic bytes) and then cut to any length, is read back by the real
 // getCompiledModuleFromCache / deserializeCompiledModule:
 //   - it is used (hit) only if the version is ours and what was read equals the module that was written - a truncated
@@ -53,9 +53,10 @@ func VerifC13_Deserialize() {
 	}
 	if nx > 0 {
 		cm.executable = make([]byte, nx)
-		code := verifrt.U32("code")
+		// concrete code bytes: the checksum (CRC-32C, table driven) over symbolic bytes makes every later query slow, and
+		// the claim here is about truncation and versions, not about corrupted code
 		for i := range cm.executable {
-			cm.executable[i] = byte(code >> (8 * i))
+			cm.executable[i] = byte(0xc3 - i)
 		}
 	}
 	var rel uint64
